@@ -234,6 +234,23 @@ CHECKS["C17"] = (
     "DESIGN.md §4 C17",
 )
 
+CHECKS["C14"] = (
+    "E-CH",
+    "CrossHair/z3 symbolic execution of parse_object + instantiate_classes on class-typed arguments: solver-chosen class of an importable family, spec form, given init_args and their kinds, symbolic values; constructor log compared with the configuration",
+    "Bounded symbolic model checking of the real code. The spec for an argument typed with a class names, by solver choice, one of 8 "
+    "importable objects (the base, three subclasses incl. a **kwargs one, an unrelated class, a callable returning the base, a "
+    "non-class, a missing module) in one of 5 forms (explicit dict, import path string, class name only, class_path first then "
+    "init_args on top, init_args on top of a default instance); which init_args are given, their kind (int, bool, None, str, float) "
+    "and an unknown name are solver choices, values symbolic. Accept/reject is compared with the structural rule (subclass or callable "
+    "returning one; every init_arg valid for that very class; no unknown names); after instantiate_classes the object is of exactly "
+    "the named class, built once, with exactly the configured init_args plus dict_kwargs. A nested harness checks a holder with a "
+    "class-typed parameter and a list of classes (built first, passed by identity) and an abstract base; a concrete harness compares "
+    "six short notations (argv and object) with the explicit form.",
+    "Trusted: the structural validity rule per parameter kind (None is 'not set' and never a reason to reject), CrossHair/z3. Outside: "
+    "Protocols, class changes between text sources, Dict/Union-of-class parameters, symbolic class_path strings.",
+    "DESIGN.md §4 C14",
+)
+
 NOT_APPLICABLE = {
     "C13": "the resolver's only input is source code on disk (inspect.getsource/ast.parse/import); a symbolic program cannot be "
     "represented for that code and types/defaults are part of the program, so no dimension of the quantifier can be a solver variable",
